@@ -59,10 +59,65 @@ def _accesses(fn):
     return out
 
 
-def _cmp(node):
-    """`self.a <op> self.b` -> (op, a, b) with private prefixes stripped."""
+def _local_aliases(fn):
+    """
+    {local name: (self attribute, line)} for the locals of `fn` that are assigned exactly once, from `self.<attr>`
+    (a hoisted attribute read: `nb = self.__nb_threads`).  A name that is assigned twice, is a parameter, or is the
+    target of a for/with/augmented assignment is not an alias.
+    """
+    counts, alias = {}, {}
+    params = {a.arg for a in fn.args.args + fn.args.kwonlyargs}
+    for n in ast.walk(fn):
+        targets = []
+        if isinstance(n, ast.Assign):
+            targets = n.targets
+        elif isinstance(n, (ast.AugAssign, ast.AnnAssign, ast.For)):
+            targets = [n.target]
+        elif isinstance(n, ast.With):
+            targets = [i.optional_vars for i in n.items if i.optional_vars is not None]
+        elif isinstance(n, ast.NamedExpr):
+            targets = [n.target]
+        for t in targets:
+            for m in ast.walk(t):
+                if isinstance(m, ast.Name):
+                    counts[m.id] = counts.get(m.id, 0) + 1
+        if isinstance(n, ast.Assign) and len(n.targets) == 1 and isinstance(n.targets[0], ast.Name) \
+                and _self_attr(n.value) is not None:
+            alias[n.targets[0].id] = (_self_attr(n.value), n.lineno)
+    return {k: v for k, v in alias.items() if counts.get(k) == 1 and k not in params}
+
+
+def _stores_between(fn, attr, lo, hi):
+    """Is `self.<attr>` stored to on a line in (lo, hi)?  (a hoisted read must not have gone stale)"""
+    for n in ast.walk(fn):
+        tgt = None
+        if isinstance(n, ast.AugAssign):
+            tgt = [n.target]
+        elif isinstance(n, ast.Assign):
+            tgt = n.targets
+        for t in tgt or []:
+            if _self_attr(t) == attr and lo < n.lineno < hi:
+                return True
+    return False
+
+
+def _operand(node, fn):
+    """`self.<attr>` or a single-assignment local alias of it (not stale at the point of use) -> attr."""
+    a = _self_attr(node)
+    if a:
+        return a
+    if fn is not None and isinstance(node, ast.Name):
+        al = _local_aliases(fn).get(node.id)
+        if al is not None and al[1] < node.lineno and not _stores_between(fn, al[0], al[1], node.lineno):
+            return al[0]
+    return None
+
+
+def _cmp(node, fn=None):
+    """`self.a <op> self.b` -> (op, a, b) with private prefixes stripped; an operand may also be a local that is
+    assigned once from `self.<attr>` (`nb = self.__nb_threads; if nb >= self._max_threads`)."""
     if isinstance(node, ast.Compare) and len(node.ops) == 1:
-        a, b = _self_attr(node.left), _self_attr(node.comparators[0])
+        a, b = _operand(node.left, fn), _operand(node.comparators[0], fn)
         if a and b:
             return (type(node.ops[0]).__name__, a.lstrip("_"), b.lstrip("_"))
     return None
@@ -132,18 +187,18 @@ def facts(src):
     growth = None
     fn = methods.get("enqueue")
     if fn is not None:
-        n = _first_if(fn, lambda i: _cmp(i.test) is not None and _calls(i, "__start_thread"))
+        n = _first_if(fn, lambda i: _cmp(i.test, fn) is not None and _calls(i, "__start_thread"))
         if n is not None:
-            growth = _cmp(n.test)
+            growth = _cmp(n.test, fn)
     out.append(Fact("poolGrowthRule", "String × String × String", None if growth is None else _triple(growth),
                     ["C10", "C09"], "enqueue: a worker is started when <left> <op> <right>", json_value=growth))
     spawn = None
     fn = methods.get("__start_thread")
     if fn is not None:
-        n = _first_if(fn, lambda i: _cmp(i.test) is not None and any(isinstance(b, ast.Return) for b in i.body))
+        n = _first_if(fn, lambda i: _cmp(i.test, fn) is not None and any(isinstance(b, ast.Return) for b in i.body))
         flag = _first_if(fn, lambda i: _calls(i.test, "is_set") and any(isinstance(b, ast.Return) for b in i.body))
         if n is not None and flag is not None and _accesses(fn) and all(a[3] for a in _accesses(fn)):
-            spawn = _cmp(n.test)
+            spawn = _cmp(n.test, fn)
     out.append(Fact("poolSpawnRefusal", "String × String × String", None if spawn is None else _triple(spawn),
                     ["C10", "C11"], "__start_thread (entirely under the lock): refuses when <left> <op> <right>, and when the stop flag is set",
                     json_value=spawn))
@@ -154,7 +209,7 @@ def facts(src):
     if fn is not None:
         for n in ast.walk(fn):
             if isinstance(n, ast.If) and isinstance(n.test, ast.BoolOp) and isinstance(n.test.op, ast.And):
-                parts = [_cmp(v) for v in n.test.values]
+                parts = [_cmp(v, fn) for v in n.test.values]
                 dec = any(isinstance(m, ast.AugAssign) and _self_attr(m.target) == "__nb_threads" and isinstance(m.op, ast.Sub)
                           for b in n.body for m in ast.walk(b))
                 if all(parts) and dec:
@@ -223,4 +278,107 @@ def facts(src):
             dflt = None
     out.append(Fact("poolCtorDefaults", "Nat × Nat × Nat", None if dflt is None else "(%d, %d, %d)" % dflt,
                     ["C10"], "ThreadPool.__init__ defaults (min_threads, queue_size, timeout)", json_value=dflt))
+
+    # ---- constructor: which errors of int() are caught ----------------------------------------------------------------
+    catches = None
+    if fn is not None:
+        catches = []
+        for n in ast.walk(fn):
+            if isinstance(n, ast.Try) and any(isinstance(c, ast.Call) and isinstance(c.func, ast.Name) and c.func.id == "int"
+                                              for b in n.body for c in ast.walk(b)):
+                names = set()
+                for h in n.handlers:
+                    ts = h.type.elts if isinstance(h.type, ast.Tuple) else ([h.type] if h.type is not None else [])
+                    for t in ts:
+                        names.add(t.id if isinstance(t, ast.Name) else ast.dump(t))
+                    if h.type is None:
+                        names.add("BaseException")
+                catches.append((n.lineno, sorted(names)))
+        catches = [c for _l, c in sorted(catches)] or None
+    out.append(Fact("poolCtorCatches", "List (List String)",
+                    None if catches is None else "[" + ", ".join("[" + ", ".join(lean_str(x) for x in c) + "]" for c in catches) + "]",
+                    ["C10"], "ThreadPool.__init__: exception classes caught around each int(...) conversion (max_threads, "
+                             "min_threads, queue_size), in source order", json_value=catches))
+
+    # ---- __start_thread: the failure branch of Thread.start() -----------------------------------------------------------
+    rollback = None
+    fn = methods.get("__start_thread")
+    if fn is not None:
+        for n in ast.walk(fn):
+            if not isinstance(n, ast.Try):
+                continue
+            start_line = None
+            for b in n.body:
+                for c in ast.walk(b):
+                    if isinstance(c, ast.Call) and isinstance(c.func, ast.Attribute) and c.func.attr == "start":
+                        start_line = c.lineno
+            if start_line is None:
+                continue
+
+            def _delta(m, op):
+                return (isinstance(m, ast.AugAssign) and _self_attr(m.target) == "__nb_threads" and isinstance(m.op, op)
+                        and isinstance(m.value, ast.Constant) and m.value.value == 1)
+            incs = [m.lineno for m in ast.walk(fn) if _delta(m, ast.Add)]
+            inc = len(incs) == 1 and incs[0] < start_line
+            undone = False
+            for h in n.handlers:
+                ts = h.type.elts if isinstance(h.type, ast.Tuple) else ([h.type] if h.type is not None else [])
+                caught = {t.id for t in ts if isinstance(t, ast.Name)}
+                decs = [m for b in h.body for m in ast.walk(b) if _delta(m, ast.Sub)]
+                ret_false = any(isinstance(b, ast.Return) and isinstance(b.value, ast.Constant) and b.value.value is False
+                                for b in h.body)
+                if {"RuntimeError", "OSError"} <= caught and len(decs) == 1 and ret_false:
+                    undone = True
+            apps = [c.lineno for b in n.body for c in ast.walk(b)
+                    if isinstance(c, ast.Call) and isinstance(c.func, ast.Attribute) and c.func.attr == "append"
+                    and _self_attr(c.func.value) == "_threads"]
+            all_apps = [c for c in ast.walk(fn) if isinstance(c, ast.Call) and isinstance(c.func, ast.Attribute)
+                        and c.func.attr == "append" and _self_attr(c.func.value) == "_threads"]
+            listed_after = len(apps) == 1 and len(all_apps) == 1 and apps[0] > start_line
+            rollback = (bool(inc), bool(undone), bool(listed_after))
+    out.append(Fact("poolStartRollback", "Bool × Bool × Bool",
+                    None if rollback is None else "(%s)" % ", ".join(str(b).lower() for b in rollback),
+                    ["C10", "C09", "C11"],
+                    "__start_thread: (nb_threads += 1 once, before thread.start(); the handler of (RuntimeError, OSError) "
+                    "undoes it with nb_threads -= 1 and returns False; _threads.append comes after start())",
+                    json_value=rollback))
+
+    # ---- __run / enqueue: the error paths do not read an attribute the task may lack ---------------------------------------
+    safe = None
+    fn = methods.get("__run")
+    if fn is not None:
+        for n in ast.walk(fn):
+            if isinstance(n, ast.Try) and any(isinstance(c, ast.Call) and isinstance(c.func, ast.Attribute)
+                                              and c.func.attr == "execute" for b in n.body for c in ast.walk(b)):
+                hs = [h for h in n.handlers if isinstance(h.type, ast.Name) and h.type.id == "Exception"]
+                ok = bool(hs) and any(_calls(ast.Module(body=n.finalbody, type_ignores=[]), "task_done") for _ in [0])
+                for h in hs:
+                    ok = ok and _no_risky_attribute(h.body)
+                safe = bool(ok)
+    fn = methods.get("enqueue")
+    if fn is not None and safe is not None:
+        for n in ast.walk(fn):
+            if isinstance(n, ast.Raise):
+                safe = safe and _no_risky_attribute([n])
+    out.append(Fact("poolRunHandlerSafe", "Bool", None if safe is None else str(bool(safe)).lower(),
+                    ["C09", "C10"],
+                    "__run: the `except Exception` handler around future.execute (and the ValueError raised by enqueue) reads "
+                    "no attribute of the task other than through getattr with a default: it cannot raise for a "
+                    "functools.partial / callable instance; task_done() sits in the finally block", json_value=safe))
     return out
+
+
+_SAFE_ATTR_OWNERS = ("self",)
+
+
+def _no_risky_attribute(stmts):
+    """No `x.attr` load on a plain local name other than `self` (e.g. `method.__name__`), and every getattr has a default."""
+    for st in stmts:
+        for n in ast.walk(st):
+            if isinstance(n, ast.Attribute) and isinstance(n.value, ast.Name) and n.value.id not in _SAFE_ATTR_OWNERS \
+                    and isinstance(n.ctx, ast.Load):
+                # a method call on a value such as "...".format(...) has a Constant / Call owner, not a Name
+                return False
+            if isinstance(n, ast.Call) and isinstance(n.func, ast.Name) and n.func.id == "getattr" and len(n.args) < 3:
+                return False
+    return True
